@@ -87,7 +87,12 @@ struct SharedSolver: public squids::SQuIDS{
 struct Channel{ std::mutex m; std::map<int,squids::SU_vector*> msgs; };
 
 struct OpResult{ uint64_t hash; int rc; };
-struct ThreadProg{ int tid; const Json* ops; std::vector<OpResult> res; Channel* chan; SharedSolver* solver; unsigned sdim; bool aborted; };
+struct ThreadProg{ int tid; const Json* ops; std::vector<OpResult> res; Channel* chan; SharedSolver* solver; unsigned sdim; bool aborted; bool user_tl; const squids::SU_vector* shared_op; };
+
+// a thread-local vector of the *user's*: constructed (empty) before the thread's first contact with the library, so it is destroyed after the
+// library's own thread-local objects, and whatever block it holds by then is released after the thread's cache has been drained
+static thread_local squids::SU_vector tl_user;
+__attribute__((noinline)) static squids::SU_vector* touch_tl_user(){ squids::SU_vector* p=&tl_user; asm volatile(""::"r"(p):"memory"); return p; }
 
 uint64_t hash_doubles(const double* p,size_t n,uint64_t h=1469598103934665603ULL){ return fnv1a(p,n*sizeof(double),h); }
 
@@ -102,6 +107,7 @@ void run_program(void* arg,int){
   ThreadProg& P=*(ThreadProg*)arg;
   const Json& ops=*P.ops;
   std::vector<squids::SU_vector*> held;
+  squids::SU_vector* mine=P.user_tl?touch_tl_user():0;
   for(size_t i=0;i<ops.size()&&i<24;i++){
     const Json& o=ops[i]; std::string op=o["op"].as_str();
     sched_yield(SITE_OPBEGIN); sched_set_in_op(1);
@@ -121,6 +127,7 @@ void run_program(void* arg,int){
         c=e.Evolve(a,0.3);
         double dot=c*e;
         R.hash=hash_doubles(&c[0],d*d,hash_doubles(&e[0],d*d)); R.hash=hash_doubles(&dot,1,R.hash);
+        if(mine) *mine=e;                            // the user's thread-local vector keeps a block until the thread ends
       },0);
     }else if(op=="factory"){
       R.rc=lib_call([&]{
@@ -200,8 +207,10 @@ void run_program(void* arg,int){
     }else if(op=="expect"){
       int kind=(int)(o["kind"].as_int(0)%5); unsigned sd=P.sdim; unsigned irho=(unsigned)(o["irho"].as_int(0)%2); double x=1.0+o["x"].as_num(0.5); unsigned ix=(unsigned)(o["ix"].as_int(0)%3);
       double val=0;
+      bool shared=o["shared_op"].as_bool(false)&&P.shared_op;     // an operator built elsewhere: the query itself may then be the thread's first contact with the library
       R.rc=lib_call([&]{
-        squids::SU_vector opv(sd); for(unsigned k=0;k<sd*sd;k++) opv[k]=vr.uniform(-1,1);
+        squids::SU_vector own; if(!shared){ own=squids::SU_vector(sd); for(unsigned k=0;k<sd*sd;k++) own[k]=vr.uniform(-1,1); }
+        const squids::SU_vector& opv=shared?*P.shared_op:own;
         switch(kind){
           case 0: val=P.solver->GetExpectationValue(opv,irho,ix); break;
           case 1: val=P.solver->GetExpectationValueD(opv,irho,x); break;
@@ -232,8 +241,11 @@ void run_pass(const Json& plan,int policy,const std::vector<int>* replay,uint64_
   Channel chan; SharedSolver* solver=0; unsigned sdim=(unsigned)std::max(2LL,std::min(6LL,plan["solver_dim"].as_int(3)));
   alloc_tag(-5);
   lib_call([&]{ solver=new SharedSolver(); solver->ini(3,sdim,2,0,0.0); solver->Set_xrange(1.0,2.0,"linear"); solver->set_state((uint64_t)plan["solver_seed"].as_int(1)); solver->Evolve(0.7); },0);
+  squids::SU_vector* shared_op=0;
+  lib_call([&]{ shared_op=new squids::SU_vector(sdim); Rng r((uint64_t)plan["solver_seed"].as_int(1)+17); for(unsigned k=0;k<sdim*sdim;k++) (*shared_op)[k]=r.uniform(-1,1); },0);
   std::vector<ThreadProg> progs(nt);
-  for(int t=0;t<nt;t++){ progs[t].tid=t; progs[t].ops=&threads[(size_t)t]; progs[t].chan=&chan; progs[t].solver=solver; progs[t].sdim=sdim; progs[t].aborted=false; progs[t].res.reserve(32); }
+  for(int t=0;t<nt;t++){ progs[t].user_tl=plan["user_tl"].type==Json::Arr&&(size_t)t<plan["user_tl"].size()&&plan["user_tl"][(size_t)t].as_bool(false); progs[t].shared_op=shared_op;
+    progs[t].tid=t; progs[t].ops=&threads[(size_t)t]; progs[t].chan=&chan; progs[t].solver=solver; progs[t].sdim=sdim; progs[t].aborted=false; progs[t].res.reserve(32); }
   int races_before=__atomic_load_n(&g_nraces,__ATOMIC_SEQ_CST);
   static int dummy=0;
   sched_begin(policy,sched_seed,replay?(replay->empty()?&dummy:&(*replay)[0]):0,replay?(int)replay->size():0,(int)plan["pct_depth"].as_int(2),20000);
@@ -244,7 +256,7 @@ void run_pass(const Json& plan,int policy,const std::vector<int>* replay,uint64_
   out.nraces=__atomic_load_n(&g_nraces,__ATOMIC_SEQ_CST)-races_before;
   out.aborted=false; for(int t=0;t<nt;t++){ out.res.push_back(progs[t].res); if(progs[t].aborted) out.aborted=true; }
   // undelivered messages, the shared solver and the main thread's own cache are released; what remains was lost by an exited thread
-  lib_call([&]{ for(std::map<int,squids::SU_vector*>::iterator it=chan.msgs.begin();it!=chan.msgs.end();++it) delete it->second; delete solver; squids::SU_vector::clear_mem_cache(); },0);
+  lib_call([&]{ for(std::map<int,squids::SU_vector*>::iterator it=chan.msgs.begin();it!=chan.msgs.end();++it) delete it->second; delete solver; delete shared_op; squids::SU_vector::clear_mem_cache(); },0);
   BlockInfo bi[4]; out.leaked=alloc_live_lib_blocks(bi,4); out.leak_bytes=out.leaked?bi[0].size:0; out.leak_tag=out.leaked?bi[0].tag:0;
   AllocError errs[2]; out.ledger_err=alloc_errors(errs,2)?errs[0].kind:0;
   alloc_run_end();
@@ -277,7 +289,7 @@ struct ThreadEngine: Engine{
         case 2:{ o["op"]="exp"; static const double tn[]={0.05,0.6,2.0,3.5,4.5,7.0,12.0}; o["norm"]=r.chance(0.7)?tn[r.below(7)]*r.uniform(0.8,1.25):std::pow(10.0,r.uniform(-2,1.5)); break; }
         case 3: o["op"]="utv"; o["norm"]=r.uniform(-3,3); break;
         case 4: case 5: o["op"]="send"; o["msg"]=nextmsg; pending.push_back(std::make_pair(nextmsg,t)); nextmsg++; break;
-        case 6: o["op"]="expect"; o["kind"]=(int)r.below(5); o["irho"]=(int)r.below(2); o["x"]=r.uniform(0,1); o["ix"]=(int)r.below(3); break;
+        case 6: o["op"]="expect"; o["shared_op"]=r.chance(0.4); o["kind"]=(int)r.below(5); o["irho"]=(int)r.below(2); o["x"]=r.uniform(0,1); o["ix"]=(int)r.below(3); break;
         case 7: o["op"]="burst"; break;
         default: o["op"]="factory"; break;
       }
@@ -286,6 +298,7 @@ struct ThreadEngine: Engine{
     Json th=Json::array(); Json sh=Json::array();
     for(int t=0;t<nt;t++){ th.push(progs[t]); char b[32]; snprintf(b,sizeof b,"threads/%d",t); sh.push(b); }
     sh.push("schedule");
+    Json utl=Json::array(); for(int t=0;t<nt;t++) utl.push(r.chance(0.3)); p["user_tl"]=utl;
     p["threads"]=th; p["shrink"]=sh;
     return p;
   }
